@@ -211,7 +211,7 @@ def compare_builds(t_p, t_s, cls, rty, pc):
 def cases(tier):
     cs = []
     isas = ['sse2', 'avx2'] if tier == 'quick' else list(ISAS)
-    precs = ['highp', 'lowp'] if tier == 'quick' else ['highp', 'mediump', 'lowp']
+    precs = ['highp', 'mediump', 'lowp']          # the SIMD files carry separate (copy-pasted) specialisations per qualifier: all three in every tier
     for isa in isas:
         for op in OPS:
             types = op[5]
